@@ -173,6 +173,23 @@ func portIDOfInode(inode string) (uint32, bool) {
 	return 0, false
 }
 
+// fdOfSocketInode finds this process's descriptor of a socket inode.
+func fdOfSocketInode(ino string) int {
+	ents, err := os.ReadDir("/proc/self/fd")
+	if err != nil {
+		return -1
+	}
+	want := "socket:[" + ino + "]"
+	for _, e := range ents {
+		if l, err := os.Readlink("/proc/self/fd/" + e.Name()); err == nil && l == want {
+			n := -1
+			fmt.Sscanf(e.Name(), "%d", &n)
+			return n
+		}
+	}
+	return -1
+}
+
 func c18Spoof(c *mon.Ctx) {
 	for _, proto := range []int{syscall.NETLINK_ROUTE, syscall.NETLINK_USERSOCK} {
 		before := socketInodes()
@@ -183,9 +200,11 @@ func c18Spoof(c *mon.Ctx) {
 		}
 		var port uint32
 		found := false
+		ownFd := -1
 		for ino := range socketInodes() {
 			if !before[ino] {
 				port, found = portIDOfInode(ino)
+				ownFd = fdOfSocketInode(ino)
 			}
 		}
 		fd, err := syscall.Socket(syscall.AF_NETLINK, syscall.SOCK_RAW|syscall.SOCK_CLOEXEC, proto)
@@ -204,8 +223,12 @@ func c18Spoof(c *mon.Ctx) {
 			lens = append(lens, r.Range(65, 9000))
 		}
 		for _, n := range lens {
-			for _, mcast := range []bool{false, true} {
-				if !mcast && !found {
+			// senders: a second socket (unicast, multicast) and the client's OWN socket addressing its own port id
+			// (found through /proc/self/fd): a datagram whose sender port equals the client's is not from the kernel
+			for variant := 0; variant < 3; variant++ {
+				mcast := variant == 1
+				own := variant == 2
+				if !mcast && !found || own && ownFd < 0 {
 					continue
 				}
 				d := r.Bytes(n)
@@ -224,12 +247,19 @@ func c18Spoof(c *mon.Ctx) {
 				if mcast {
 					to = &syscall.SockaddrNetlink{Family: syscall.AF_NETLINK, Groups: 1}
 				}
-				if err := syscall.Sendto(fd, d, syscall.MSG_DONTWAIT, to); err != nil {
+				sfd := fd
+				if own {
+					sfd = ownFd
+				}
+				if err := syscall.Sendto(sfd, d, syscall.MSG_DONTWAIT, to); err != nil {
 					c.Add("spoof_send_errno_"+fmt.Sprint(int(err.(syscall.Errno))), 1)
 					c.Add("spoof_sends_refused_by_kernel", 1)
 					continue
 				}
 				k := &c18Case{Kind: "spoof", Dgram: d, Mcast: mcast}
+				if own {
+					c.Add("datagrams_sent_from_the_clients_own_socket_to_itself", 1)
+				}
 				msgs, err := recvRetry(cl)
 				if err == syscall.EAGAIN {
 					c.Add("spoof_datagrams_not_delivered", 1)
@@ -243,7 +273,7 @@ func c18Spoof(c *mon.Ctx) {
 				}
 				c.DistinctSet("nontrivial").AddBytes(append([]byte{byte(proto)}, d...))
 				if err == nil || len(msgs) > 0 {
-					c.Violation("spoofed-datagram-accepted", fmt.Sprintf("Receive returned %d messages, err=%v for a %d-byte datagram sent by another user-space netlink socket (protocol %d, multicast=%v)", len(msgs), err, n, proto, mcast), k)
+					c.Violation("spoofed-datagram-accepted", fmt.Sprintf("Receive returned %d messages, err=%v for a %d-byte datagram sent by a user-space netlink socket (protocol %d, multicast=%v, from the client's own socket=%v)", len(msgs), err, n, proto, mcast, own), k)
 				}
 			}
 		}
@@ -765,7 +795,7 @@ func c18Run(c *mon.Ctx) {
 func init() {
 	register(&mon.CheckSpec{
 		ID: "C18", Level: "exploration",
-		Rule: "cases = (a,c) requests sent with NetlinkClient.Send on a real NETLINK_ROUTE socket - types 0..15 with NLM_F_ACK (header-only echo) and random types in 256..65535 (never 16..255: live rtnetlink operations), flags = any 16 bits | NLM_F_REQUEST (and any 16 bits | NLM_F_ACK without NLM_F_REQUEST: acknowledged unprocessed, header echoed), payload lengths 0..8970 (every 37th quick, every length thorough) plus every length 0..64, random short payloads, and clients whose caller-supplied read buffer the reply fills exactly or with 1/4/64 bytes to spare - (most through a second client opened while a first one is open, so the socket's port id differs from the process id) whose NLMSG_ERROR reply, read back with Receive, carries the request as the kernel saw it (length, type, flags, port id, sequence = returned value, payload bytes); (b) N in {2,4,16} goroutines x M sends on one client: per-goroutine increasing, globally distinct, and the recorded {call, return, value} history checked with porcupine against a strictly increasing counter model (direct interval check when porcupine gives up), and a storm of 12 senders beside 6 goroutines whose sends the kernel refuses (distinct and per-goroutine increasing only); (d) datagrams of every length 0..64 and random longer ones, arbitrary and ACK-shaped contents, unicast and multicast from a second user-space netlink socket (NETLINK_ROUTE as root, NETLINK_USERSOCK): Receive must return an error and no message, and a later kernel reply must still be received; (e) AuditClient.Receive over the simulated Netlink with datagrams of every length 0..64 and random longer ones ending at a PROT_NONE page; (f) eight AuditClients, each with its own transport and goroutine, receiving at the same time: each gets the type and payload of its own datagram, and the message returned by the previous call keeps its type and length; (g) a client bound to an otherwise unused multicast group sends NLMSG_NOOP requests while a second socket in the same group listens: it must receive nothing (requests are addressed to the kernel only). Runs under the race detector; ASan in thorough. distinct_nontrivial = distinct frames, spoofed datagrams, parse inputs and sequence histories.",
+		Rule: "cases = (a,c) requests sent with NetlinkClient.Send on a real NETLINK_ROUTE socket - types 0..15 with NLM_F_ACK (header-only echo) and random types in 256..65535 (never 16..255: live rtnetlink operations), flags = any 16 bits | NLM_F_REQUEST (and any 16 bits | NLM_F_ACK without NLM_F_REQUEST: acknowledged unprocessed, header echoed), payload lengths 0..8970 (every 37th quick, every length thorough) plus every length 0..64, random short payloads, and clients whose caller-supplied read buffer the reply fills exactly or with 1/4/64 bytes to spare - (most through a second client opened while a first one is open, so the socket's port id differs from the process id) whose NLMSG_ERROR reply, read back with Receive, carries the request as the kernel saw it (length, type, flags, port id, sequence = returned value, payload bytes); (b) N in {2,4,16} goroutines x M sends on one client: per-goroutine increasing, globally distinct, and the recorded {call, return, value} history checked with porcupine against a strictly increasing counter model (direct interval check when porcupine gives up), and a storm of 12 senders beside 6 goroutines whose sends the kernel refuses (distinct and per-goroutine increasing only); (d) datagrams of every length 0..64 and random longer ones, arbitrary and ACK-shaped contents, unicast and multicast from a second user-space netlink socket and unicast from the client's own socket to its own port id (NETLINK_ROUTE as root, NETLINK_USERSOCK): Receive must return an error and no message, and a later kernel reply must still be received; (e) AuditClient.Receive over the simulated Netlink with datagrams of every length 0..64 and random longer ones ending at a PROT_NONE page; (f) eight AuditClients, each with its own transport and goroutine, receiving at the same time: each gets the type and payload of its own datagram, and the message returned by the previous call keeps its type and length; (g) a client bound to an otherwise unused multicast group sends NLMSG_NOOP requests while a second socket in the same group listens: it must receive nothing (requests are addressed to the kernel only). Runs under the race detector; ASan in thorough. distinct_nontrivial = distinct frames, spoofed datagrams, parse inputs and sequence histories.",
 		Assumptions: []string{
 			"the running kernel echoes rejected NETLINK_ROUTE requests in NLMSG_ERROR replies (netlink_ack) and delivers user-to-user netlink datagrams for root; if sockets cannot be opened the check is inconclusive, not green",
 			"message types 16..255 are never sent (they are live rtnetlink operations)",
